@@ -382,6 +382,48 @@ func init() {
 		out = append(out, BV(8, '>'))
 		return mkStrTerms(out)
 	})
+	// errors.Is(err, target) for the cases the code under test uses: identity with a sentinel value; an error that
+	// wraps another one (Unwrap) is followed through errors built by the opaque fmt.Errorf stub only (they wrap nothing).
+	reg("errors.Is", func(p *Path, th *thread, caller *frame, pos token.Pos, fn *ssa.Function, args []Value) Value {
+		e, ok1 := args[0].(IfaceVal)
+		t, ok2 := args[1].(IfaceVal)
+		if !ok1 || !ok2 {
+			unsup("errors.Is on non-interface values")
+		}
+		if e.T == nil || t.T == nil {
+			return BoolT(e.T == nil && t.T == nil)
+		}
+		if !types.Identical(e.T, t.T) {
+			if p.ex.prog.MethodSets.MethodSet(e.T).Lookup(nil, "Unwrap") != nil || p.ex.prog.MethodSets.MethodSet(e.T).Lookup(nil, "Is") != nil {
+				unsup("errors.Is through Unwrap/Is methods")
+			}
+			return tFalse
+		}
+		if _, isPtr := e.V.(*Value); !isPtr {
+			unsup("errors.Is on a non-pointer error value")
+		}
+		return p.eqValue(e.T, e.V, t.V)
+	})
+	reg("net.ParseCIDR", func(p *Path, th *thread, caller *frame, pos token.Pos, fn *ssa.Function, args []Value) Value {
+		s, ok := concStr(args[0])
+		if !ok {
+			unsup("net.ParseCIDR on a symbolic string")
+		}
+		ip, ipn, err := net.ParseCIDR(s)
+		if err != nil {
+			return TupleVal{SliceVal{Nil: true}, (*Value)(nil), p.opaqueErr("invalid CIDR address")}
+		}
+		mk := func(b []byte) SliceVal {
+			ts := make([]*Term, len(b))
+			for i, x := range b {
+				ts[i] = BV(8, uint64(x))
+			}
+			return mkByteSlice(ts)
+		}
+		cell := new(Value)
+		*cell = StructVal{mk(ipn.IP), mk(ipn.Mask)}
+		return TupleVal{mk(ip), cell, IfaceVal{}}
+	})
 	reg("net.ParseIP", func(p *Path, th *thread, caller *frame, pos token.Pos, fn *ssa.Function, args []Value) Value {
 		s, ok := concStr(args[0])
 		if ok {
@@ -417,6 +459,13 @@ func init() {
 	reg("strings.Index", strNative(func(a, b string) Value { return BV(64, uint64(int64(strings.Index(a, b)))) }))
 	reg("strings.LastIndex", strNative(func(a, b string) Value { return BV(64, uint64(int64(strings.LastIndex(a, b)))) }))
 	reg("strings.Count", strNative(func(a, b string) Value { return BV(64, uint64(int64(strings.Count(a, b)))) }))
+	reg("strings.TrimSpace", func(p *Path, th *thread, caller *frame, pos token.Pos, fn *ssa.Function, args []Value) Value {
+		a, ok := concStr(args[0])
+		if !ok {
+			unsup("strings.TrimSpace on a symbolic string")
+		}
+		return mkStr(strings.TrimSpace(a))
+	})
 	reg("strings.Trim", strNative(func(a, b string) Value { return mkStr(strings.Trim(a, b)) }))
 
 	// ---- math ----
